@@ -14,11 +14,17 @@ func propC19(c *Ctx, r *Report) {
 	r.Clauses = append(r.Clauses,
 		"positions are inert (E11): every read of a source position (parser.Span / parser.Position values and the Line/Column/Offset fields of positions and tokens) in the lowerer flows directly into a diagnostic or a position-typed variable; none is compared, computed with, branched on or stored into an IR value - so whitespace, comment and line-break edits cannot reach the lowered module through positions")
 	r.NotDecided = append(r.NotDecided,
-		"acceptance equivalence under the edits; comment skipping and nested block comments in the lexer; '>>' / '>=' splitting; redundant parentheses and trailing commas in the parser; renaming invariance (declaration ordering by dependency, name-keyed maps)")
+		"acceptance equivalence under the edits; the body of the comment skipper (nesting depth) and of the number / identifier scanners; '>>' / '>=' splitting in the parser; redundant parentheses in the parser, trailing commas in lists parsed without a loop (array<T, N,>); renaming invariance (declaration ordering by dependency, name-keyed maps)")
 	c.runPositionSinks(r, "pos.sink", "wgsl/internal/lower")
 	r.floor("positions.reads", 5)
 	r.Clauses = append(r.Clauses, "syntax-tree walkers (E3): every function reachable from the parser / lowerer entry points that walks the parser's tree (a type switch over Expr, Stmt, Type or Decl nodes using every child in >= 3/4 of its arms) uses every child node of every variant it has an arm for and, when it has no default arm, has an arm for every variant that has children (dependency ordering that misses a reference makes acceptance depend on declaration order)")
 	c.runFrontendASTWalkers(r, "frontend")
+	r.Clauses = append(r.Clauses, "token characters (E20): in the lexer's punctuation scanner the characters consumed on the path to every addToken(K) - case label, successful match() tests, advance() calls - spell exactly the WGSL token K, and the block-comment skipper is entered with exactly \"/*\" consumed (so a comment or operator never shifts the position from which the following text is lexed)")
+	c.runLexerTokenChars(r, "lex.tokenchars")
+	r.floor("lex.tokenchars", 40)
+	r.Clauses = append(r.Clauses, "trailing commas (E9): every parser loop over a comma-separated list (it goes round again after match(TokenComma)) tests the closing token again before the next element - in the loop condition or at the top of the body - so `f(a, b,)` is accepted whenever `f(a, b)` is")
+	c.runListLoops(r, "parse.listloop")
+	r.floor("parser.listloops", 5)
 	r.floor("frontend.astwalkers", 8)
 }
 
